@@ -408,6 +408,7 @@ func cmdCheck(args []string) int {
 		os.WriteFile(rp, []byte("property: "+prop+"\nreason: the contracts no longer bind to the code; every baseline obligation of this property is undischarged\n\n"+run.stale+"\n"), 0o644)
 		vioLines = append(vioLines, fmt.Sprintf("VIOLATION property=%s replay=%s no-failing-input-found", prop, rp))
 		violations++
+		missing = nil // one violation for the whole property, not one per obligation that could not be generated
 	}
 	sort.Slice(failed, func(i, j int) bool { return failed[i].Name < failed[j].Name })
 	var knownLines []string
